@@ -205,8 +205,10 @@ def hdLine (d : HDDrv) (lineNo : Nat) (ts : List String) : HDDrv × List String 
              | _, _ => ["C10.accepted-action-not-published-as-an-event"])
            else [])
         let v13 :=
-          (if bk.endsWith ":err" && ic == "ok" then ["C13.backend-failure-not-returned-to-the-caller"] else []) ++
-          (if bk.endsWith ":err" && same == "0" then ["C13.backend-failure-left-a-trace"] else []) ++
+          -- (a `ready` / `pay` answer never reaches the backend itself: a backend call recorded after the last answer of a
+          -- request group is the engine's own group call, whose failure goes to the error callback — `internal-fault`)
+          (if bk.endsWith ":err" && ic == "ok" && (wagerKinds.contains kind || kind == "pass") then ["C13.backend-failure-not-returned-to-the-caller"] else []) ++
+          (if bk.endsWith ":err" && same == "0" && (wagerKinds.contains kind || kind == "pass") then ["C13.backend-failure-left-a-trace"] else []) ++
           (match d.lastInjected with
            | some (i, k, a) => if i == id && k == kind && a == arg && ic != "ok" then ["C13.action-refused-on-retry-after-a-backend-failure"] else []
            | none => [])
